@@ -695,6 +695,20 @@ func e6MidFilteredCase(seed uint64, n int, race bool) Case {
 					runtime.Gosched()
 				}
 			}
+			// ... and some of the existing ones are given a NEW accept-all filter (a function
+			// filter never compares equal) while the events are going out: the subscriber
+			// re-reads its parent, and must still end up with everything
+			for k := 0; k < 3 && len(subs) > 0; k++ {
+				nd := subs[rng.Intn(len(subs))]
+				if nd.refilt != nil && !isClosed(nd.done) {
+					if err := nd.refilt(kit.TFN("accept-all", func(metav1Object) bool { return true })); err != nil {
+						r.V("C05", "refilter-error", "Refilter on live %s: %v", nd, err)
+						return
+					}
+					r.Add("refilters-mid-stream", 1)
+				}
+				runtime.Gosched()
+			}
 			if err := <-pubDone; err != nil {
 				r.V("C05", "publish-error", "%v", err)
 				return
@@ -757,6 +771,9 @@ func e6FilteredRootCase(seed uint64, n int) Case {
 		g.barrier()
 		for _, m := range mirs {
 			m.seed(kit.Snap{})
+			m.mu.Lock()
+			m.noReplay = true
+			m.mu.Unlock()
 		}
 		names := []string{"a", "b", "c", "d"}
 		for i := 0; i < 200; i++ {
